@@ -32,6 +32,8 @@ Refusal(c) ==
       [] c.api = "StabilizerState.get_prob" -> IF c.len # c.n THEN "ValueError" ELSE "none"
       [] c.api = "StabilizerState.entropy" -> IF OutOfRange(c.qs, c.n) THEN "AssertionError" ELSE "none"
       [] c.api = "StabilizerState.postselect" -> IF c.r > 0 THEN "ValueError" ELSE "none"
+      \* an observable list on another number of qubits than the state: refused before the tableau is touched
+      [] c.api = "StabilizerState.measure" -> IF c.m # c.n THEN "AssertionError" ELSE "none"
       [] OTHER -> "unlisted"
 \* a refused call leaves the receiver as it was (recorded by the driver as a projection before / after)
 RefusalClean(c) == (Refusal(c) # "none" /\ "same" \in DOMAIN c) => c.same
